@@ -114,7 +114,9 @@ Fixpoint gen_lingo_sp (sp : bool) (n : node) (ind : nat) {struct n} : string :=
     | _ => name
     end
   | Unary name _ operand =>
-    (if String.eqb name "minus" then "-" else name ++ " ") ++ gen_lingo operand ind
+    let os := gen_lingo operand ind in
+    if String.eqb name "minus" then "-" ++ (if starts_with "-" os then "(" ++ os ++ ")" else os)
+    else name ++ " " ++ os
   | Binary name _ l r =>
     let ls := gen_lingo l ind in
     let rs := gen_lingo r ind in
@@ -167,13 +169,13 @@ Fixpoint gen_lingo_sp (sp : bool) (n : node) (ind : nat) {struct n} : string :=
   | Stmt _ code =>
     indent ind ++ gen_lingo_sp true code ind ++ "
 "
-  | Call name _ params use_paren _ _ =>
+  | Call name _ params use_paren _ with_result =>
     match params with
     | Some (LoadList ln lp ops) =>
       (* gv_as_sym changes the last operand only, and only its text *)
       let strs := set_last (map (fun x => gen_lingo x ind) ops) (gv_sym_name name ops) in
       match ops with
-      | [] => name
+      | [] => if use_paren && negb sp && negb with_result && starts_with "<" ln then name ++ "()" else name
       | _ =>
         if String.eqb name "sound" then
           match last_opt ops with
